@@ -500,6 +500,10 @@ def gen_world(
                 var["formulas"][s],
                 ["rd", world["variables"][j]["name"], "this", None, None],
             ]
+            if j == i:
+                # a rule that reads itself for the very period it is computed for: whenever
+                # that formula is the one in force, a request for it cannot be answered
+                world["self_cycle"] = [var["name"], s]
     return world
 
 
